@@ -199,7 +199,7 @@ func concBounds(what string, crash bool) func(tier string) map[string]any {
 		if tier == "thorough" {
 			p = 2
 		}
-		b := map[string]any{"scenarios": what, "preemption_budget": p, "blocking_switches": "deterministic (lowest thread id = creation order); every pre-emption at a statement boundary of the instrumented files within the budget is explored", "data": "opening balance, amounts, last log id L and last transaction id N symbolic", "threads": "main, one per client request, commander runner, batch worker (and their second generation after a restart)"}
+		b := map[string]any{"scenarios": what, "preemption_budget": fmt.Sprintf("1 on every scenario (both tiers); thorough adds budget %d on the two-request base scenarios (without the crash decision where the check has one): budget 2 over every scenario does not finish within 45 min", p), "blocking_switches": "deterministic (lowest thread id = creation order); every pre-emption at a statement boundary of the instrumented files within the budget is explored", "data": "opening balance, amounts, last log id L and last transaction id N symbolic", "threads": "main, one per client request, commander runner, batch worker (and their second generation after a restart)"}
 		if crash {
 			b["crash"] = "the process may stop at any statement boundary of any non-main thread (spends one unit of the budget); the harness then restarts a commander on the same store"
 		}
@@ -235,7 +235,8 @@ var specs = map[string]*CheckSpec{
 	},
 	"C02": {
 		ID: "C02", Patterns: []string{cmdPkg}, NeedHelper: true, Instrument: true,
-		Runs:        []HarnessRun{concRun("ZZ_C02", "ZZ_C02N", "ZZ_C02Desc", "", 1, 2, false, nil, []int{0, 2})},
+		Runs: []HarnessRun{concRun("ZZ_C02", "ZZ_C02N", "ZZ_C02Desc", "", 1, 1, false, nil, []int{0, 2}),
+			thoroughOnly(onlyShapes(concRun("ZZ_C02", "ZZ_C02N", "ZZ_C02Desc", "budget 2:", 2, 2, false, nil, []int{}), []int{0}), "-p2")},
 		Bounds:      concBounds("two concurrent sends from one account, the source named literally / by an account variable / through meta(); 5 combinations", false),
 		Assumptions: concAssume, Encoded: cmdEncoded,
 		Rule:        "after quiescence the persisted log is replayed in order from the symbolic opening balance: every posting must be covered at its position; every Lock call must carry the resolved source in its write set",
@@ -243,7 +244,8 @@ var specs = map[string]*CheckSpec{
 	},
 	"C05": {
 		ID: "C05", Patterns: []string{cmdPkg}, NeedHelper: true, Instrument: true,
-		Runs: []HarnessRun{concRun("ZZ_C05", "ZZ_C05N", "ZZ_C05Desc", "", 1, 2, true, []int{0, 1, 2, 3, 4, 5, 7, 9}, []int{0, 3}),
+		Runs: []HarnessRun{concRun("ZZ_C05", "ZZ_C05N", "ZZ_C05Desc", "", 1, 1, true, []int{0, 1, 2, 3, 4, 5, 7, 9}, []int{0, 3}),
+			thoroughOnly(onlyShapes(concRun("ZZ_C05", "ZZ_C05N", "ZZ_C05Desc", "no crash, budget 2:", 2, 2, false, nil, []int{}), []int{0, 3}), "-p2"),
 			concRun("ZZ_C05Fresh", "ZZ_C05FreshN", "ZZ_C05FreshDesc", "", 1, 1, true, nil, []int{1})},
 		Bounds: func(tier string) map[string]any {
 			b := concBounds("2 (thorough: also 3) concurrent writes (create on a locked account, create from world only, create whose client gives up at an arbitrary moment, a dry-run create among the real writes, set/delete metadata, revert), then stop-or-crash, restart on the same store and one more create", true)(tier)
@@ -256,7 +258,8 @@ var specs = map[string]*CheckSpec{
 	},
 	"C06": {
 		ID: "C06", Patterns: []string{cmdPkg, batchPkg}, NeedHelper: true, Instrument: true,
-		Runs: []HarnessRun{concRun("ZZ_C06", "ZZ_C06N", "ZZ_C06Desc", "", 1, 2, true, []int{0, 1, 2, 3, 6, 7, 10, 11, 14, 16, 18}, []int{0, 6}),
+		Runs: []HarnessRun{concRun("ZZ_C06", "ZZ_C06N", "ZZ_C06Desc", "", 1, 1, true, []int{0, 1, 2, 3, 6, 7, 10, 11, 14, 16, 18}, []int{0, 6}),
+			thoroughOnly(onlyShapes(concRun("ZZ_C06", "ZZ_C06N", "ZZ_C06Desc", "no crash, budget 2:", 2, 2, false, nil, []int{}), []int{0, 1}), "-p2"),
 			{Pkg: batchPkg, Dir: "internal/engine/utils/batching", Mod: "ledger", Fn: "ZZ_C06Batch", Shapes: rangeShapes(18), Cfg: cmdCfg, Desc: harnessDesc(batchPkg, "ZZ_C06BatchDesc", "batch composition:"), CanaryShapes: []int{3}}},
 		Bounds: func(tier string) map[string]any {
 			b := concBounds("2 (thorough: also 3) concurrent writes with distinct markers (one of them possibly abandoned by its client at an arbitrary moment), with and without an injectable InsertLogs failure", true)(tier)
@@ -282,7 +285,8 @@ var specs = map[string]*CheckSpec{
 	},
 	"C11": {
 		ID: "C11", Patterns: []string{cmdPkg}, NeedHelper: true, Instrument: true,
-		Runs:        []HarnessRun{concRun("ZZ_C11", "ZZ_C11N", "ZZ_C11Desc", "", 1, 2, false, nil, []int{0})},
+		Runs: []HarnessRun{concRun("ZZ_C11", "ZZ_C11N", "ZZ_C11Desc", "", 1, 1, false, nil, []int{0}),
+			thoroughOnly(onlyShapes(concRun("ZZ_C11", "ZZ_C11N", "ZZ_C11Desc", "budget 2:", 2, 2, false, nil, []int{}), []int{0, 2}), "-p2")},
 		Bounds:      concBounds("2-3 concurrent creates sharing one reference (each may succeed or fail on funds), then a later create with the same reference", false),
 		Assumptions: concAssume, Encoded: cmdEncoded,
 		Rule:        "at most one committed transaction carries the reference; accepted requests = committed transactions; the later request is rejected with a conflict",
